@@ -94,9 +94,21 @@ class Out:
 class Extractor:
     def __init__(self, repo, template, defines=()):
         self.repo = repo
-        self.tmpl = self.expand_defs(self.select(open(template).read().split("\n"), set(defines)))
+        self.tmpl = self.expand_defs(self.select(self.include(template), set(defines)))
         self.out = Out()
         self.report = {"functions": [], "items": [], "rules": {}, "template": template}
+
+    @staticmethod
+    def include(template):
+        """//@include <file> (relative to the template's directory) splices another template fragment"""
+        out = []
+        base = os.path.dirname(os.path.abspath(template))
+        for l in open(template).read().split("\n"):
+            if l.strip().startswith("//@include "):
+                out.extend(Extractor.include(os.path.join(base, l.strip().split()[1])))
+            else:
+                out.append(l)
+        return out
 
     @staticmethod
     def select(lines, defines):
@@ -426,9 +438,9 @@ class Extractor:
                     if re.search(pa["regex"], self.code_line(src, k))]
             if pa.get("nth"):
                 # the anchor text occurs several times: `nth=` picks one, `of=` pins the expected count
-                if len(hits) < pa["nth"]:
+                if len(hits) < abs(pa["nth"]):
                     raise LostAnchor("proof anchor %r in fn %s: match %d of %d" % (pa["regex"], name, pa["nth"], len(hits)))
-                hit = hits[pa["nth"] - 1]
+                hit = hits[pa["nth"] - 1] if pa["nth"] > 0 else hits[pa["nth"]]   # nth=-1: the last match
             else:
                 if len(hits) != 1:
                     raise LostAnchor("proof_after %r in fn %s matched %d lines" % (pa["regex"], name, len(hits)))
